@@ -5,7 +5,11 @@ boltons.cacheutils.LRI/LRU through the public dict API, and the observations
 are rendered as Coq terms; Coq (Check/C02_Check.v) computes agree/holds.
 """
 import copy as _copy
+import os
+import sys
 from common import cnat, cN, clist, cpair, cbool
+
+sys.path.insert(0, os.path.join(os.path.dirname(os.path.abspath(__file__)), "translators"))
 
 ID = "C02"
 IMPORTS = ("From Boltons Require Import Lib.Prelude Lib.C02_Syntax Spec.C02_Spec "
@@ -29,9 +33,19 @@ ASSUMPTIONS = ["keys are hashable with lawful __eq__/__hash__ (tokens mapped to 
                "CPython dict preserves insertion order; popitem is LIFO (used by agree only, not by the Spec)",
                "on_miss is a total function of the key (does not raise, does not touch the cache)",
                "single-threaded use (concurrency is property C03)"]
+def translators(repo):
+    """(T): the five linked-list helpers of LRI, regenerated from the ast of the current source as
+    programs for Model/C02_PtrInterp.v; Props/C02.v proves that running them is the pointer-level model.
+    Fails closed (raises) on any construct it does not understand."""
+    import c02_helpers
+    return {"C02_Gen": c02_helpers.translate(repo)}
+
+
 TRUSTED = ["Model/C02_Model.v is hand-written (linked-list cells/pointers abstracted to a list); tied to "
            "boltons.cacheutils.LRI/LRU by the correspondence run",
-           "harness/c02.py serialiser (tokens <-> Python objects, observation rendering)"]
+           "harness/c02.py serialiser (tokens <-> Python objects, observation rendering)",
+           "harness/translators/c02_helpers.py (ast of the five helpers -> programs) and the interpreter "
+           "Model/C02_PtrInterp.v (semantics of the straight-line subset: evaluation order, chained assignment)"]
 
 # ---------------------------------------------------------------------------
 # tokens <-> Python objects.  No two tokens map to ==-equal objects.
